@@ -24,7 +24,7 @@ func (c09) Assumptions() []string {
 	return []string{"error identity is Go interface equality (==) between the returned error and the injected value", "input documents are sampled"}
 }
 func (c09) Required(tier string) []string {
-	return []string{"H-error", "H-nested", "error-is-a-library-error-value", "error-of-uncomparable-type", "error-is-a-typed-nil-pointer", "struct-handler", "func-adapter-handler", "error-at-scalar-member", "error-at-string-member", "error-at-container-member", "error-offset-near-maxint", "error-in-nested-traversal"}
+	return []string{"H-error", "H-nested", "error-is-a-library-error-value", "error-of-uncomparable-type", "error-is-a-typed-nil-pointer", "error-wraps-a-library-error", "struct-handler", "func-adapter-handler", "error-at-scalar-member", "error-at-string-member", "error-at-container-member", "error-offset-near-maxint", "error-in-nested-traversal"}
 }
 
 func (c09) Gen(r *Rand, sc *Scenario, tier string) {
@@ -119,6 +119,8 @@ func (c09) Exec(sc *Scenario, st *Stats) *Violation {
 		}
 		st.probe(errMemberProbe(doc, out.CBs))
 		switch {
+		case e.thrown >= 20:
+			st.probe("error-wraps-a-library-error")
 		case e.thrown >= 19:
 			st.probe("error-is-a-typed-nil-pointer")
 		case e.thrown >= 16:
